@@ -92,7 +92,11 @@ class HistGen:
             self.kept += 1
             return "keep", r.choice(["(set! keep (cons (lambda (y) (%s y)) keep))" % f,
                                      "(set! keep (cons (vector-ref (vector %s) 0) keep))" % f,
-                                     "(set! keep (cons (hash-ref (hash 'k %s) 'k) keep))" % f])
+                                     "(set! keep (cons (hash-ref (hash 'k %s) 'k) keep))" % f,
+                                     # many instances of ONE lambda (same function id), each capturing a different old function
+                                     "(set! keep (cons (vf-wrap %s) keep))" % f,
+                                     "(set! keep (cons (vf-wrap %s) keep))" % f,
+                                     "(set! keep (cons (vf-wrap2 %s %d) keep))" % (f, r.randint(0, 9))])
         if k < 0.70:
             # a unit that fails at run time after a definition: the definition stays
             n = self.vname()
@@ -119,7 +123,8 @@ class HistGen:
 
 def gen_history(r, nunits):
     g = HistGen(r)
-    units = []
+    # closure factories that are never redefined: every closure they return is an instance of the same lambda
+    units = [("define-factory", "(define (vf-wrap h) (lambda (y) (h y)))\n(define (vf-wrap2 h k) (lambda (y) (+ (h y) k)))")]
     for i in range(nunits):
         kind, u = g.unit()
         units.append((kind, u))
